@@ -309,7 +309,7 @@ func (c *Conn) loop(now time.Time) {
 		}
 
 		var m any
-		if !nextTimeout.IsZero() && nextTimeout.Before(now) {
+		if !nextTimeout.IsZero() && !nextTimeout.After(now) {
 			// A connection timer has expired.
 			now = time.Now()
 			m = timerEvent{}
